@@ -180,6 +180,19 @@ theorem jobs_independent (P : Params) (hc : CodecOk P.codec) (hB0 : 0 < P.B) (hB
   rw [(schedule_independent P hc hB0 hB n₁ beh₁ h₁ mb₁ files).2, (schedule_independent P hc hB0 hB n₂ beh₂ h₂ mb₂ files).2]
 
 
+
+/-- **`script_schedule_independent`.**  The same for every *API script* — files, `sqfs_block_processor_submit_block`
+(manual submission) and `sqfs_block_processor_sync` calls in any order (`ApiOp`, Sqfs/Model/BlockProcFail.lean) — and for
+both variants of `sync`: over any behaviour of the threaded pool without failing callbacks the script computes what it
+computes over the serial pool.  (Independence of `max_backlog` for scripts with manual submissions is exercised by the
+check, not proved: the invariant of `Proofs/BP*.lean` covers the blocks the front end submits.) -/
+theorem script_schedule_independent (v : Variant) (P : Params) (n : Nat) (beh : List Pool.Op → Pool.Ret)
+    (h : RealisedBy n beh) (mb : Nat) (ops : List ApiOp) :
+    runOps v { P with ans := behAns beh } mb ops = runOps v (serial P) mb ops := by
+  have : ({ P with ans := behAns beh } : Params) = serial P := by
+    unfold serial; rw [realised_eq_serial n beh h]
+  rw [this]
+
 /-! ### per-worker compressor state: the purity of the worker function as an explicit hypothesis -/
 
 /-- **`stateful_pool_is_pure`.**  Workers that carry private compressor state (`StatefulCodec σ`: every worker owns a copy,
